@@ -28,7 +28,7 @@ Pre == Trace[l - 1]
 Cond == FMax(FDiv(O.M1, O.M2), FDiv(O.M2, O.M1))
 IsChain == E.ev \in {"New", "Conv"}
 
-KnownEvent == E.ev \in {"New", "Conv", "Construct", "ConvRaised"}
+KnownEvent == E.ev \in {"New", "Conv", "Construct", "ConvRaised", "Foreign"}
 \* the conversion is total on valid compositions (it fixes 0 and 1, so it cannot leave [0,1])
 Cl_ConversionTotal == E.ev # "ConvRaised"
 
@@ -53,5 +53,11 @@ Cl_RatioLaw  == IsChain => /\ C!RatioLaw(O.a, E.a, O.M1, O.M2, C!One)
 \* apart the images may coincide or differ in the last places, but must not be reordered visibly
 Cl_Monotone  == IsChain => IF O.close THEN C!MonotoneWeak(E.a, E.b) \/ EqTol(E.a.p, E.b.p, Cond)
                                       ELSE C!Monotone(E.a, E.b)
+\* a conversion result converted onwards under another mixture, or after its fraction was re-assigned: the ratio law of the
+\* mixture and the value given now
+Cl_ForeignResult == (E.ev = "Foreign") =>
+                      /\ ~E.raised /\ E.out.type = E.to
+                      /\ C!RatioLaw(E.src, E.out, E.M1, E.M2, C!One)
+                      /\ C!RatioLawRel(E.src, E.out, E.M1, E.M2, RatioCond(E.src, E.out))
 Cl_RejectsOutside == (E.ev = "Construct") => (E.raised <=> ~C!Valid(E.p))
 =============================================================================
